@@ -1,7 +1,5 @@
 package evaluator
 
-import "fmt"
-
 type scope struct {
 	values map[string]value
 	outer  *scope
@@ -32,16 +30,18 @@ func (s *scope) set(name string, val value) {
 	s.values[name] = val
 }
 
-func (s *scope) update(name string, val value) {
+// update assigns val to the innermost variable called name and reports
+// whether there is such a variable.
+func (s *scope) update(name string, val value) bool {
 	if name == "_" {
-		return
+		return true
 	}
 	if _, ok := s.values[name]; ok {
 		s.values[name] = val
-		return
+		return true
 	}
 	if s.outer == nil {
-		panic(fmt.Errorf("%w: update of unknown variable %q", ErrAssignmentTarget, name))
+		return false
 	}
-	s.outer.update(name, val)
+	return s.outer.update(name, val)
 }
